@@ -187,7 +187,11 @@ Section Validate.
     (negb (multi_gate n) || nodup_b (flat_map (outs_of nodes) (v_targets n))) && (* _validate_multi_target_output_conflicts *)
     negb (mapped_with_interrupts n) &&                                           (* _validate_no_interrupt_in_map_over *)
     negb (is_graphnode n && v_cache n) &&                                        (* _validate_no_cache_on_non_function_nodes *)
-    forallb (fun w => pos_in w (all_outputs nodes)) (v_wait n).                  (* _validate_wait_for_references *)
+    forallb (fun w => pos_in w (all_outputs nodes)) (v_wait n) &&                (* _validate_wait_for_references *)
+    (negb (is_graphnode n) || gname_ok (v_name n)) &&                            (* ... a GraphNode's name is a path component *)
+    nodup_b (v_outputs n) &&                                                     (* ... every output of a node has its own name *)
+    forallb (fun w => existsb (fun m => negb (Pos.eqb (v_name m) (v_name n)) && pos_in w (v_outputs m)) nodes) (v_wait n).
+                                                                                 (* ... a waited-for name is produced by ANOTHER node *)
 
   Definition params_of (nodes : list vnode) : list name := flat_map v_inputs nodes.
   Definition default_infos (nodes : list vnode) (p : name) : list (option val) :=
